@@ -6,7 +6,7 @@ V = os.path.dirname(os.path.dirname(os.path.abspath(__file__)))
 H = os.path.join(V, 'selftest', 'harmless')
 jobs = []
 for h in sorted(os.listdir(H)):
-    if os.path.isdir(os.path.join(H, h)):
+    if os.path.isdir(os.path.join(H, h)) and (not sys.argv[1:] or h in sys.argv[1:]):
         for p in json.load(open(os.path.join(H, h, 'meta.json')))['checks'].split(','):
             jobs.append((h, p))
 def work(j):
@@ -30,6 +30,9 @@ with ThreadPoolExecutor(max_workers=4) as pool:
         print(h, p, 'exit', rc, 'undecided', nu, '|', msg)
         res['%s/%s' % (h, p)] = {'exit': rc, 'undecided': nu}
         bad += rc != 0
-json.dump(res, open(os.path.join(V, 'selftest', 'harmless', 'RESULTS.json'), 'w'), indent=1, sort_keys=True)
+rp = os.path.join(V, 'selftest', 'harmless', 'RESULTS.json')
+if sys.argv[1:] and os.path.exists(rp):
+    res = dict(json.load(open(rp)), **res)
+json.dump(res, open(rp, 'w'), indent=1, sort_keys=True)
 print('FALSE ALARMS:', bad)
 sys.exit(1 if bad else 0)
